@@ -508,6 +508,26 @@ func c19ClassCase(s Src, tag string) *Case {
 // ইনপুট in arbitrary ways, under several deliveries of the same stdin bytes. No
 // prediction: only what C19 states for every valid program.
 func c19GrammarCase(s Src) *Case {
+	if Chance(s, "valid", 1, 3) {
+		// a program that is valid by construction (validprog.go): status 0, empty stderr,
+		// the same under every delivery of its input
+		prog, inputs := validProgram(s)
+		var stdin strings.Builder
+		for i := 0; i < inputs+1; i++ {
+			stdin.WriteString(Pick(s, "padl", c19Pads) + Pick(s, "text", []string{"hello", "0", "12", "a b", "কলম", "", "x"}) + Pick(s, "padr", c19Pads) + "\n")
+		}
+		cs := &Case{Prop: "C19", Kind: "grammar", Sig: "valid-by-construction", Program: prog}
+		base := scriptCfg(prog, stdin.String())
+		base.Budget = 30000000
+		base.TTY = drawTTY(s)
+		cs.Runs = []Run{{Role: "line", Cfg: withDelivery(base, "line")}}
+		if inputs > 0 {
+			c, d := drawDelivery(s, base)
+			cs.Runs = append(cs.Runs, Run{Role: "all", Cfg: withDelivery(base, "all")}, Run{Role: d, Cfg: c})
+		}
+		cs.ExpectExit, cs.ExpectStderr = ptrI(0), "empty"
+		return cs
+	}
 	prog := randomEffectfulProgram(s)
 	var stdin strings.Builder
 	n := s.Int("nstdin", 0, 12)
